@@ -96,7 +96,12 @@
 //! ```
 
 use std::sync::OnceLock;
+#[cfg(not(prqlc_verif))]
 use std::{collections::HashMap, path::PathBuf, str::FromStr};
+#[cfg(prqlc_verif)]
+use std::{path::PathBuf, str::FromStr};
+#[cfg(prqlc_verif)]
+use prqlc_parser::verif_hash::HashMap;
 
 use anstream::adapter::strip_str;
 use semver::Version;
